@@ -57,9 +57,10 @@ def cov_menu(n, tier="quick"):
 
     out = []
     out.append(("I", [[1.0 if i == j else 0.0 for j in range(n)] for i in range(n)]))
-    dvals = [0.5, 2.0, 0.25, 4.0]
+    dvals = [0.5, 2.0, 0.25, 4.0, 1.5, 0.75]
     out.append(("diag", [[dvals[i] if i == j else 0.0 for j in range(n)] for i in range(n)]))
-    A = [[1.0, 0.5, -0.25, 0.75], [0.0, 1.5, 0.5, -0.5], [0.25, -0.75, 1.0, 0.5], [0.5, 0.25, -0.5, 2.0]]
+    A = [[1.0, 0.5, -0.25, 0.75, 0.25, -0.5], [0.0, 1.5, 0.5, -0.5, 0.75, 0.25], [0.25, -0.75, 1.0, 0.5, -0.25, 0.5],
+         [0.5, 0.25, -0.5, 2.0, 0.5, -0.75], [-0.25, 0.5, 0.75, 0.25, 1.25, 0.5], [0.75, -0.5, 0.25, -0.25, 0.5, 1.75]]
     dense = [[sum(A[i][t] * A[j][t] for t in range(n)) + (0.25 if i == j else 0.0) for j in range(n)] for i in range(n)]
     out.append(("dense", dense))
     if tier == "thorough":
@@ -67,6 +68,6 @@ def cov_menu(n, tier="quick"):
         out.append(("dense-1e-3", [[v / 1024.0 for v in r] for r in dense]))
     if n >= 2:
         # rank-deficient PSD: v v^T
-        v = [1.0, -0.5, 0.25, 2.0][:n]
+        v = [1.0, -0.5, 0.25, 2.0, -1.5, 0.75][:n]
         out.append(("rank1", [[v[i] * v[j] for j in range(n)] for i in range(n)]))
     return out
